@@ -1,3 +1,4 @@
+import ParryModel.C13.Theorems4
 import ParryModel.C13.Theorems3
 import ParryModel.C13.Theorems2
 import ParryModel.C13.Lemmas
